@@ -110,6 +110,8 @@ def chk_case(inp, c):
     if nsp is not None:
         c.cell("spaced")
     two = inp["two_rows"]
+    if two and float(Z.depth(inp["extra"])[0]) / Z.extent < 1e-6:
+        two = False        # the companion row must be strictly inside (an integer-rounded one may not be): judge b alone
     if two:
         B = np.array([b, inp["extra"]])
         c.cell("two-rows")
